@@ -791,8 +791,25 @@ fn fault() -> BoxedStrategy<Fault> {
     .boxed()
 }
 
+fn queue_strategy(max_ops: usize) -> BoxedStrategy<Case> {
+    let qop = prop_oneof![
+        5 => proptest::collection::vec(any::<u8>(), 0..40).prop_map(QOp::Write),
+        3 => Just(QOp::Flush),
+        3 => (0usize..50).prop_map(QOp::Read),
+        2 => any::<u16>().prop_map(QOp::FillConsume),
+        2 => any::<u16>().prop_map(QOp::ConsumeWith),
+        1 => Just(QOp::Drop),
+    ];
+    proptest::collection::vec(qop, 0..max_ops).prop_map(|ops| Case::Queue { ops }).boxed()
+}
+
 impl Property for C16 {
     type Case = Case;
+
+    fn fuzz(&self) -> Option<FuzzSpec> {
+        // entropy-driven target: libFuzzer's bytes replace the generator's random numbers
+        Some(FuzzSpec { target: "gen", jobs: 8, runs: 500_000, max_len: 4096, seeds: 64 })
+    }
 
     fn id(&self) -> &'static str {
         "C16"
@@ -803,16 +820,14 @@ impl Property for C16 {
         "fault_enumeration"
     }
 
+    /// the coverage-guided stage mutates queue histories only (pseudo-terminal sessions need
+    /// threads and real time, which an in-process fuzz target should not own)
+    fn fuzz_strategy(&self) -> BoxedStrategy<Case> {
+        queue_strategy(120)
+    }
+
     fn strategy(&self, tier: Tier) -> BoxedStrategy<Case> {
-        let qop = prop_oneof![
-            5 => proptest::collection::vec(any::<u8>(), 0..40).prop_map(QOp::Write),
-            3 => Just(QOp::Flush),
-            3 => (0usize..50).prop_map(QOp::Read),
-            2 => any::<u16>().prop_map(QOp::FillConsume),
-            2 => any::<u16>().prop_map(QOp::ConsumeWith),
-            1 => Just(QOp::Drop),
-        ];
-        let queue = proptest::collection::vec(qop, 0..60).prop_map(|ops| Case::Queue { ops });
+        let queue = queue_strategy(60);
         let max_payload = tier.pick(1usize << 16, 1usize << 18);
         let top = prop_oneof![
             6 => prop_oneof![3 => 1usize..200, 2 => 4000usize..4200, 1 => 8193usize..max_payload].prop_map(TOp::Write),
